@@ -21,7 +21,10 @@ def gen_body(rng, names, depth, subexprs):
     elif k < 0.55:
         return gen_body(rng, names, depth - 1, subexprs) + " " + gen_body(rng, names, depth - 1, subexprs)
     elif k < 0.68:
-        return gen_body(rng, names, depth - 1, subexprs) + " | " + gen_body(rng, names, depth - 1, subexprs)
+        left = gen_body(rng, names, depth - 1, subexprs)
+        if rng.random() < 0.15:
+            return left + " | " + left            # the same alternative twice
+        return left + " | " + gen_body(rng, names, depth - 1, subexprs)
     elif k < 0.73:
         return gen_body(rng, names, depth - 1, subexprs) + " |"
     else:
@@ -66,7 +69,7 @@ for o1 in ["(%s)", "[%s]", "{%s}", "{{%s}}"]:
 
 def exhaustive_small():
     """Every small body placed under every pair of operators (where the shared memo entry bites)."""
-    bodies = ["a", '"+"', "a b", "a | b", "a |", 'a "+" | b', "plus", "[a]", "{a} b"]
+    bodies = ["a", '"+"', "a b", "a | b", "a |", 'a "+" | b', "plus", "[a]", "{a} b", "a | a", '"+" | "+"', "a b | a b", "a | b | a", "a | | a"]
     out = []
     for body in bodies:
         for o1, o2 in OPERATOR_PAIRS:
